@@ -41,6 +41,17 @@ def plan(tier, seed, kf_ids):
                 jobs.append(Job(name, code, "for every value of %s: to_num::<f32> (and checked_/overflowing_) is the IEEE-754 "
                                 "RNE result incl. SUBNORMAL results (|x| < 2^-126) and overflow to infinity" % c.alias(s, w, f),
                                 timeout=1200, inst="%s->f32" % c.alias(s, w, f), bounds="all 2^128 values"))
+        if w == 128:
+            # the lowest normal binade and the subnormals of f32 are only visible to layouts with >= 125 fractional bits
+            for f in ((125, 128) if s == "U" else (126, 127)):
+                if f in fr:
+                    continue
+                for form in ((0, 3) if q else (0, 1, 2, 3, 4)):
+                    name = "c05_from_%s_f32_%s" % (c.tag(s, w, f), FORMS[form][:3])
+                    code = "#[kani::proof]\npub fn %s() { from_float::<%s, f32, %d>(); }" % (name, c.ty(s, w, f), form)
+                    jobs.append(Job(name, code, "for every finite f32 bit pattern (incl. subnormals and the lowest normal binade, which only "
+                                    "layouts with >= 125 fractional bits resolve): the %s form of from_num into %s equals RNE(float*2^%d)" % (FORMS[form], c.alias(s, w, f), f),
+                                    timeout=1200, inst="f32->%s" % c.alias(s, w, f), bounds="all finite f32 bit patterns"))
         if fr:
             f0 = fr[-1]
             for ft in ("f32", "f64"):
